@@ -31,6 +31,16 @@ where
     let mut src = &buf[..];
     let (n_fmt, n_sample) = read_site(&mut src, header, record)?;
 
+    if n_sample != header.sample_names().len() {
+        return Err(io::Error::new(
+            io::ErrorKind::InvalidData,
+            format!(
+                "sample count mismatch: expected {}, got {n_sample}",
+                header.sample_names().len()
+            ),
+        ));
+    }
+
     buf.resize(l_indiv, 0);
     reader.read_exact(buf)?;
     let mut src = &buf[..];
